@@ -7,6 +7,7 @@ import (
 	"bytes"
 	"fmt"
 	"math"
+	"path/filepath"
 	"reflect"
 	"sort"
 	"strings"
@@ -126,7 +127,12 @@ func dumpDiameter() {
 	}
 	sb.WriteString(strings.Join(rows, ",\n"))
 	sb.WriteString("\n]\n\n")
-	fmt.Fprintf(&sb, "def reInterface : Nat := %d\n\nend Chf.Gen\n", charging_code.Re_interface)
+	fmt.Fprintf(&sb, "def reInterface : Nat := %d\n\n", charging_code.Re_interface)
+	// 3. the CHF's client functions return the decoded answer untouched (go/ast, see astPassThrough)
+	sb.WriteString("/-- (client function, the decoded answer is returned as decoded: nothing between Unmarshal and return) -/\n")
+	fmt.Fprintf(&sb, "def clientPassThrough : List (String × Bool) := [(%q, %v), (%q, %v)]\n\nend Chf.Gen\n",
+		"internal/rating.SendServiceUsageRequest", astPassThrough(filepath.Join(repoRoot(), "internal", "rating", "rating.go"), "SendServiceUsageRequest"),
+		"internal/abmf.SendAccountDebitRequest", astPassThrough(filepath.Join(repoRoot(), "internal", "abmf", "abmf.go"), "SendAccountDebitRequest"))
 	fmt.Print(sb.String())
 }
 
@@ -247,6 +253,10 @@ func genDiam(o genOpts, w *bufio.Writer) {
 	for i := 0; i < o.n; i++ {
 		fmt.Fprintf(w, "diam rt %d %d\n", i%4, o.seed*1000003+uint64(i))
 	}
+	// the CHF's client functions against a scripted peer: requests and answers over the full range of every field
+	for i := 0; i < o.n/2; i++ {
+		fmt.Fprintf(w, "diam client %s %d\n", []string{"sur", "ccr"}[i%2], o.seed*7000003+uint64(i))
+	}
 	// primitive AVP data encodings (compared with the Lean codec model)
 	r := &rng{s: o.seed}
 	for i := 0; i < o.n/4; i++ {
@@ -310,6 +320,9 @@ func runDiam(line string, t []string) string {
 			return fmt.Sprintf("same %s len=%d", m.name, len(b))
 		}
 		return "DIFF " + m.name + " sent=" + a + " got=" + c
+	case len(t) == 3 && t[0] == "client":
+		// the same fidelity through the CHF's real client functions and a scripted peer (diamclientrt.go)
+		return runDiamClient(t[1], uint64(i64(t[2])))
 	case len(t) == 3 && t[0] == "prim":
 		var d datatype.Type
 		switch t[1] {
